@@ -44,6 +44,8 @@ CHECKS = {
             "Every observed header decodes to exactly the fields its format stores, and the code object is the one right after the header; flag words CPython itself rejects are not judged.", "7/C06"),
     "C10": ("exploration", "differential runtime monitoring of xdis's unmarshaller on hand-synthesised marshal streams (every encoding form, FLAG_REF/back-reference patterns) against the reference interpreter's own marshal.loads",
             "Held on the accepted synthesised streams of each reference version (2.7, 3.6-3.13); the synthesiser is untrusted and streams a reference rejects are discarded; text-format NaN is not generated for Python 2.", "7/C10"),
+    "C19": ("translation_validation", "per-output validation of freeze(): each encoded line table is decoded by xdis's own line-start routine and by the matching CPython (which installs the bytes in a code object) and compared with the input mapping",
+            "Every encoder output produced in the run is validated against its input by two independent decoders; no claim about the encoders beyond the mappings generated (all offset-gap / line-gap classes of the statement).", "7/C19"),
 }
 
 PENDING = {}
